@@ -247,7 +247,8 @@ pub fn convert(src: &str) -> String {
             cur.index += 1;
         }
     }
-    res.trim().to_string()
+    // keep leading line breaks: the lexer counts lines from the start of the source
+    res.trim_end().to_string()
 }
 
 #[cfg(test)]
